@@ -3,6 +3,7 @@
 from __future__ import annotations
 
 import random
+from collections import Counter
 
 from .. import engine, gen
 from ..runner import Outcome
@@ -50,13 +51,31 @@ def generate(rng: random.Random, tier: str) -> dict:
         t["config"]["preconditioner"]["solver"]["enhance_stability"] = False
     if len(t["events"]) > 12 and tier == "quick":
         t["events"] = t["events"][:12]
+    if rng.random() < 0.15:
+        # a parameter kept in another (dense) memory layout, e.g. a channels_last convolution weight or a transposed matrix
+        cands = [i for i, p in enumerate(t["params"]) if len(p["shape"]) >= 2]
+        if cands:
+            i = rng.choice(cands)
+            n = len(t["params"][i]["shape"])
+            perm = list(range(n))
+            while perm == list(range(n)):
+                rng.shuffle(perm)
+            t["params"][i]["perm"] = [0, 2, 3, 1] if (n == 4 and rng.random() < 0.5) else perm
     return t
 
 
 def execute(trace: dict) -> Outcome:
     common.quiet_logs()
     oracles = [engine.BlockingOracle(), engine.PresplitTwin()]
-    run = engine.SingleRun(trace, oracles, ID)
+    permuted = any(p.get("perm") for p in trace["params"])
+    try:
+        run = engine.SingleRun(trace, oracles, ID)
+    except RuntimeError as e:
+        if permuted and "view" in str(e):
+            # merging the dimensions of a parameter in another memory layout is not expressible as a view: the constructor
+            # refuses (loudly) instead of blocking a copy - nothing to check
+            return Outcome(violation=None, probes=Counter({"noncontiguous_param_rejected": 1}), nontrivial=False, abstract=[], steps=0)
+        raise
     v = run.run()
     masks = [[g is not None for g in ev["g"]] for ev in trace["events"] if ev["op"] == "step"][: run.steps_done]
     run.probes["presence_changed"] += sum(1 for a, b in zip(masks, masks[1:]) if a != b)
